@@ -242,11 +242,11 @@ def step (st : St) (raw : Option Str) : Res St :=
     else if line = [] then
       let keep := st.block = .style && !st.styles.isEmpty && !(hasSuffix ['}'] (st.styles.getLast?.getD []))
       .ok { st with block := if keep then st.block else .none, tags := [] }
-    else if st.block ≠ .text && hasPrefix "Region: ".toList line then
+    else if st.block ≠ .text && st.block ≠ .comment && hasPrefix "Region: ".toList line then
       match regionParts (splitC ' ' (trimPrefix "Region: ".toList line)) {} with
       | some r => .ok { st with regions := setDef st.regions (regionDef r) }
       | none => .err
-    else if st.block ≠ .text && hasPrefix "STYLE".toList line then
+    else if st.block ≠ .text && st.block ≠ .comment && hasPrefix "STYLE".toList line then
       if st.styleSeen then .ok { st with block := .style }
       else .ok { st with block := .style, styleSeen := true, tags := [], styles := [] }
     else if contains arrow line then
@@ -270,7 +270,7 @@ def step (st : St) (raw : Option Str) : Res St :=
               .ok { st with done := flush st, cur := item, curListed := true, block := .text, index := 0, comments := [] }
           | _, _ => .err
       | _ => .err
-    else if st.block ≠ .text && hasPrefix "X-TIMESTAMP-MAP".toList line then
+    else if st.block ≠ .text && st.block ≠ .comment && hasPrefix "X-TIMESTAMP-MAP".toList line then
       if !st.cur.lines.isEmpty then .err else
       match parseTsMap line with
       | .ok m => .ok { st with tsmap := some m }
